@@ -1,0 +1,122 @@
+//go:build verif
+
+package stdlib
+
+// ---- Safety-only contracts (C11) ------------------------------------------------------------------
+// Callbacks verified without any written clause: under the argument contract that Function.Call (resp.
+// returnTypeForValues) establishes for the declared parameters (spec_args), no run-time panic, no explicit
+// panic and no violated precondition or panic condition of a callee under contract is reachable. Callees
+// without a contract are assumed not to panic (listed in the evidence).
+//
+//@ func stdlib.AssertNotNullFunc.Impl
+//@   tags C11
+//@   spec_args stdlib.AssertNotNullFunc
+//
+//@ func stdlib.AssertNotNullFunc.Type
+//@   tags C11
+//@   spec_args stdlib.AssertNotNullFunc
+//
+//@ func stdlib.ChompFunc.Impl
+//@   tags C11
+//@   spec_args stdlib.ChompFunc
+//
+//@ func stdlib.ChunklistFunc.Type
+//@   tags C11
+//@   spec_args stdlib.ChunklistFunc
+//
+//@ func stdlib.CoalesceFunc.Impl
+//@   tags C11
+//@   spec_args stdlib.CoalesceFunc
+//
+//@ func stdlib.CoalesceFunc.Type
+//@   tags C11
+//@   spec_args stdlib.CoalesceFunc
+//
+//@ func stdlib.ConcatFunc.Type
+//@   tags C11
+//@   spec_args stdlib.ConcatFunc
+//
+//@ func stdlib.DistinctFunc.Type
+//@   tags C11
+//@   spec_args stdlib.DistinctFunc
+//
+//@ func stdlib.IndentFunc.Impl
+//@   tags C11
+//@   spec_args stdlib.IndentFunc
+//
+//@ func stdlib.IndexFunc.Type
+//@   tags C11
+//@   spec_args stdlib.IndexFunc
+//
+//@ func stdlib.JSONDecodeFunc.Type
+//@   tags C11
+//@   spec_args stdlib.JSONDecodeFunc
+//
+//@ func stdlib.JSONEncodeFunc.Impl
+//@   tags C11
+//@   spec_args stdlib.JSONEncodeFunc
+//
+//@ func stdlib.KeysFunc.Type
+//@   tags C11
+//@   spec_args stdlib.KeysFunc
+//
+//@ func stdlib.LengthFunc.Impl
+//@   tags C11
+//@   spec_args stdlib.LengthFunc
+//
+//@ func stdlib.LookupFunc.Type
+//@   tags C11
+//@   spec_args stdlib.LookupFunc
+//
+//@ func stdlib.ModuloFunc.Impl
+//@   tags C11
+//@   spec_args stdlib.ModuloFunc
+//
+//@ func stdlib.NotEqualFunc.Impl
+//@   tags C11
+//@   spec_args stdlib.NotEqualFunc
+//
+//@ func stdlib.ParseIntFunc.Type
+//@   tags C11
+//@   spec_args stdlib.ParseIntFunc
+//
+//@ func stdlib.RegexAllFunc.Type
+//@   tags C11
+//@   spec_args stdlib.RegexAllFunc
+//
+//@ func stdlib.RegexFunc.Impl
+//@   tags C11
+//@   spec_args stdlib.RegexFunc
+//
+//@ func stdlib.RegexFunc.Type
+//@   tags C11
+//@   spec_args stdlib.RegexFunc
+//
+//@ func stdlib.RegexReplaceFunc.Impl
+//@   tags C11
+//@   spec_args stdlib.RegexReplaceFunc
+//
+//@ func stdlib.ReplaceFunc.Impl
+//@   tags C11
+//@   spec_args stdlib.ReplaceFunc
+//
+//@ func stdlib.SetHasElementFunc.Impl
+//@   tags C11
+//@   spec_args stdlib.SetHasElementFunc
+//
+//@ func stdlib.SetProductFunc.Type
+//@   tags C11
+//@   spec_args stdlib.SetProductFunc
+//
+//@ func stdlib.SignumFunc.Impl
+//@   tags C11
+//@   spec_args stdlib.SignumFunc
+//
+//@ func stdlib.TimeAddFunc.Impl
+//@   tags C11
+//@   spec_args stdlib.TimeAddFunc
+//
+//@ func stdlib.ValuesFunc.Type
+//@   tags C11
+//@   spec_args stdlib.ValuesFunc
+//
